@@ -92,7 +92,7 @@ def run(ctx):
     except Exception:
         hconf = None              # see run_family: controlled legs degrade, the exhaustive runs of the model still happen
     crnd = random.Random(ctx.seed * 7919 + 55)
-    configs = [('C2', 1, 1, 0), ('C3', 2, 2, 0), ('C2u', 2, 2, 0)] if quick else [('C2', 1, 1, 0), ('C3', 2, 2, 0), ('C3', 2, 2, 1), ('C2u', 2, 2, 0), ('C3', 3, 3, 0), ('C0', 2, 2, 0)]
+    configs = [('C2', 1, 1, 0), ('C3', 2, 2, 0), ('C2u', 2, 2, 0), ('C2', 2, 2, 1)] if quick else [('C2', 1, 1, 0), ('C3', 2, 2, 0), ('C3', 2, 2, 1), ('C2u', 2, 2, 0), ('C3', 3, 3, 0), ('C0', 2, 2, 0)]
     if hconf is not None:
         hconf.shared = hconf.learn(poolconf.scen_for("C2", 1, 1, 0, JUDGE), crnd)
     poolconf.design_legs(ctx, configs, ['CallOK', 'NoBad', 'NoLeftovers'], False, ['CallOK'], hconf, crnd, 30 if quick else 300, 30 if quick else 300, JUDGE)
